@@ -36,9 +36,25 @@ func drawFamily(rng *rand.Rand) string {
 	return all[rng.Intn(len(all))]
 }
 
+func distinctFamilies() []string {
+	seen := map[string]bool{}
+	var out []string
+	for _, f := range families {
+		if !seen[f] {
+			seen[f] = true
+			out = append(out, f)
+		}
+	}
+	return out
+}
+
 // GenFor draws a scenario with the injected events that matter for prop.
 func GenFor(prop string, rng *rand.Rand) *sim.Scenario {
-	s := sim.GenScenario(rng, drawFamily(rng))
+	return genForFamily(prop, rng, drawFamily(rng))
+}
+
+func genForFamily(prop string, rng *rand.Rand, family string) *sim.Scenario {
+	s := sim.GenScenario(rng, family)
 	n := len(s.Steps)
 	at := func() (int, string) { return 1 + rng.Intn(n), states[rng.Intn(len(states))] }
 	add := func(action string) {
